@@ -10,3 +10,14 @@ kani_unit("verifier_lib", "winter-verifier", "verifier/src/lib.rs", "kani/verifi
 for u in UNITS:
     if u["unit"] == "verifier_lib":
         u["modpath"] = "verif_kani"
+
+kani_unit("verifier_channel", "winter-verifier", "verifier/src/channel.rs", "kani/verifier_channel.rs", "channel", [
+    H("verifier_channel_claimed_field_len%d_contract" % L, ["C18"], ["VerifierChannel::new (base-field consistency check)"],
+      "forall claimed moduli of %d bytes: Err(InconsistentBaseField) unless the claimed bytes are exactly the little-endian modulus of the computation's base field" % L,
+      timeout=900)
+    for L in (8, 7, 9, 14)
+] + [
+    H("verifier_channel_honest_field_contract", ["C18"], ["VerifierChannel::new (base-field consistency check)"],
+      "a proof claiming the computation's own modulus is not refused with InconsistentBaseField", timeout=900),
+    H("verifier_channel_canary_must_fail", ["C18"], [], "false claim: the field check never fires", canary=True),
+])
